@@ -91,3 +91,322 @@ MANIFEST_TEXT["C05"] = dict(
     note="trusted: Kani/CBMC/CaDiCaL, frozen first-quintant table, reference hex parser; alloc::fmt::format stubbed in codec harnesses (not in c05_hex_fmt); strings > 18 bytes outside the claim",
     technique="Kani/CBMC bounded model checking (SAT) of the real serialize/deserialize/hex code over symbolic inputs",
 )
+
+# ------------------------------------------------------------------------------------------ C07
+HIER = SER + ["a5::core::serialization::cell_to_parent", "a5::core::serialization::cell_to_children"]
+CH = "serialization16cell_to_children"
+
+
+def ch_unwind(faces, quints, inner):
+    """cell_to_children loops by ordinal: .0 faces, .1 quintants, .2 curve children (bound = iterations+1)."""
+    # ranks are in source order (outermost first); bound = iterations + 1
+    return [(CH, 0, faces + 1), (CH, 1, quints + 1), (CH, 2, inner + 1)]
+
+
+PROPERTIES["C07"] = dict(
+    explanation="ancestor composition over all cells × all level pairs; children (count, distinct, resolution, ancestry, canonical, order) "
+                "for all cells with fan-out ≤ 16/20/60; every cell is listed exactly under its parent; children of children = children at the deeper level",
+    assumptions=[VALID, FMT_STUB],
+    trusted_base=["bit-level oracle spec_valid, proved equal to the real code by oracle_valid_equiv in the same run"],
+    outside_claim=["per-call fan-out above 16 (20 from a base cell, 60 from the world cell); deeper fan-outs follow from composition (c07_compose, c07_grand) but are not executed"],
+    harnesses=[
+        oracle("oracle_valid_equiv"),
+        H("c07_compose", "c07", [Q, T], "∀ valid cell(0..29) c, ∀ −1≤b≤a≤r: parent(parent(c,a),b)=parent(c,b), res(parent(c,a))=a, canonical; default arg = r−1",
+          functions=HIER, bounds="none", exhaustive=True, assumes=[VALID], deps=["oracle_valid_equiv"]),
+        H("c07_fanout", "c07", [Q, T], "∀ −1≤p≤c≤29, c−p≤8: get_num_children(p,c) = ∏ apertures (12,5,4,…)",
+          functions=["a5::core::cell_info::get_num_children", "a5::core::cell_info::get_num_cells"], bounds="c−p ≤ 8 (the property's 4^8 cap)"),
+        H("c07_children_d1", "c07", [Q, T], "∀ valid cell(1..28): children(c,r+1): 4 entries, pairwise distinct (symbolic index pair), increasing, resolution r+1, parent=c, canonical; count = get_num_children",
+          functions=HIER, bounds="fan-out 4; loops 1×1×4 (unwinding assertions on)", unwindset=ch_unwind(1, 1, 4), assumes=[VALID], deps=["oracle_valid_equiv"], timeout=1500, mem_gb=24),
+        H("c07_world", "c07", [Q, T], "world cell: 12 children at r=0, 60 at r=1: distinct, right resolution, canonical, parent = world / the right base cell; get_res0_cells agrees",
+          functions=HIER + ["a5::core::serialization::get_res0_cells"], bounds="concrete input; fan-out 12 and 60 fully unwound", exhaustive=True, timeout=1500),
+        H("c07_base", "c07", [Q, T], "∀ face: children of the base cell at r=1 (5) and r=2 (20): distinct, right resolution, parent = base cell, grandchildren listed under the right quintant",
+          functions=HIER, bounds="fan-out 5 and 20; loops 1×5×4", unwindset=ch_unwind(1, 5, 4), deps=["oracle_valid_equiv"], timeout=1500),
+        H("c07_cover_hi", "c07", [Q, T], "∀ valid cell y, r≥3: y = children(parent(y))[s&3]", functions=HIER, bounds="none on y; loops 1×1×4",
+          unwindset=ch_unwind(1, 1, 4), assumes=[VALID], timeout=1500),
+        H("c07_cover_r2", "c07", [Q, T], "∀ valid cell y, r=2: y = children(parent(y))[s]", functions=HIER, bounds="loops 1×1×4",
+          unwindset=ch_unwind(1, 1, 4), assumes=[VALID], timeout=1500),
+        H("c07_cover_lo", "c07", [Q, T], "∀ valid cell y, r∈{0,1}: y occurs exactly once in children(parent(y)) (12 / 5 entries)", functions=HIER,
+          bounds="loops 12×5×1", unwindset=ch_unwind(12, 5, 1), assumes=[VALID], timeout=1500),
+        H("c07_children_d2", "c07", [T], "as c07_children_d1, two levels down (16 children)", functions=HIER, bounds="fan-out 16; loops 1×1×16",
+          unwindset=ch_unwind(1, 1, 16), assumes=[VALID], deps=["oracle_valid_equiv"], timeout=3600, mem_gb=20),
+        H("c07_grand", "c07", [T], "∀ valid cell(1..27): children(c,r+2) = concatenation of children(child_i, r+2)", functions=HIER,
+          bounds="fan-out 16; loops 1×1×16", unwindset=ch_unwind(1, 1, 16), assumes=[VALID], timeout=3600, mem_gb=20),
+    ],
+)
+MANIFEST_TEXT["C07"] = dict(
+    level="bounded model checking of the compiled hierarchy functions: every statement is one SAT query over all valid cells (all faces, quintants, curve positions up to 2^56, all levels) with a symbolic pair of child indices; only the per-call fan-out is bounded (≤16/20/60)",
+    design_ref="DESIGN.md §5 C07",
+    note="trusted: Kani/CBMC/CaDiCaL; bit-level canonical-ID oracle is proved equal to the real codec in the same run; per-loop unwind bounds are checked by unwinding assertions; fan-out > 16 per call outside the claim",
+    technique="Kani/CBMC bounded model checking (SAT) of the real cell_to_parent/cell_to_children over symbolic cells and symbolic child indices",
+)
+
+# ------------------------------------------------------------------------------------------ C20
+ORD = HIER[:-1] + ["a5::core::serialization::get_stride", "a5::core::serialization::is_first_child"]
+PROPERTIES["C20"] = dict(
+    explanation="order/ancestor monotonicity, descendants ordering, subtree = contiguous interval, sibling adjacency over all pairs/quadruples of valid cells; descendants are symbolic cells (no depth bound)",
+    assumptions=[VALID, FMT_STUB],
+    trusted_base=[],
+    outside_claim=[],
+    harnesses=[
+        H("c20_anc_monotone", "c20", [Q, T], "∀ a<b valid, same r≥2, ∀ L∈1..r: parent(a,L) ≤ parent(b,L)", functions=ORD, bounds="none", exhaustive=True, assumes=[VALID]),
+        H("c20_desc_order", "c20", [Q, T], "∀ a<b same r≥2, ∀ valid da,db with parent(da,r)=a, parent(db,r)=b (any depth): da<db", functions=ORD, bounds="none (descendants symbolic)", exhaustive=True, assumes=[VALID]),
+        H("c20_interval", "c20", [Q, T], "∀ valid c (r≥1), ∀ descendants d1,d2 of c, ∀ valid x (r≥1): d1≤x≤d2 ⇒ res x ≥ res c ∧ parent(x,res c)=c", functions=ORD, bounds="none", exhaustive=True, assumes=[VALID], timeout=1500),
+        H("c20_sibling_gap", "c20", [Q, T], "∀ valid a<x same r≥2: x−a ≥ get_stride(r); consecutive positions exactly one stride apart; is_first_child(a) ⇔ s&3=0 (with/without hint)", functions=ORD, bounds="none", exhaustive=True, assumes=[VALID]),
+        H("c20_lowres_siblings", "c20", [Q, T], "r∈{0,1}: is_first_child ⇔ face 0 / quintant code ≡ 0 mod 5; stride 1<<58; quintants of a face ≤ 4 strides apart", functions=ORD, bounds="none", exhaustive=True, assumes=[VALID]),
+        H("c20_base_exception", "c20", [Q, T], "cover witness: a base-cell ID lies strictly between two quintant IDs of another face (the r≥1 restriction is necessary)", functions=SER, bounds="none", exhaustive=True),
+    ],
+)
+MANIFEST_TEXT["C20"] = dict(
+    level="bounded model checking of the compiled codec/hierarchy: each order statement is one SAT query over all pairs/quadruples of valid cells at all levels; descendants are symbolic cells so no depth bound applies",
+    design_ref="DESIGN.md §5 C20",
+    note="trusted: Kani/CBMC/CaDiCaL; alloc::fmt::format stubbed; validity predicate of the cell description assumed",
+    technique="Kani/CBMC bounded model checking (SAT) of the real serialize/cell_to_parent/get_stride/is_first_child over symbolic cell tuples",
+)
+
+# ------------------------------------------------------------------------------------------ C14
+LOOKUP_STUBS = ["a5::core::cell::lonlat_to_estimate ↦ any in-range estimate (nondeterministic)",
+                "a5::core::cell::a5cell_contains_point ↦ constant Ok(1.0) (first probe hits)"]
+LK = ["a5::core::cell::lonlat_to_cell", "a5::core::serialization::serialize"]
+COMPACT_STUBS = ["<[u64]>::sort_unstable ↦ identity (input assumed strictly increasing)", "verif_set::HashSet in ASSUME_UNIQUE mode",
+                 "get_resolution ↦ loop-free res_stub (proved equal on all 2^64 inputs by oracle_res_equiv)"]
+PROPERTIES["C14"] = dict(
+    explanation="every root-exported integer-surface function on every u64 / i32 / Option<i32>: no panic, no arithmetic/shift overflow, no OOB, "
+                "termination within the bound; Ok results canonical and of the requested resolution; Err only when honest",
+    assumptions=[FMT_STUB, "float leaves of lonlat_to_cell stubbed nondeterministically (named per harness)"],
+    trusted_base=["bit-level oracles spec_valid/res_stub proved equal to the real code in the same run", "std HashSet/sort_unstable (compact prelude)"],
+    outside_claim=["panics/NaN inside the float leaves themselves (projection, containment, normalize_longitudes)", "allocation failure",
+                   "cell_to_lonlat / cell_to_boundary beyond deserialize (float leaves)", "lonlat_to_cell search loop with arbitrary hit/miss interleavings over 26 distinct estimates (only the first-probe-hits regime is encoded)",
+                   "calls whose honest result exceeds 16 cells per input (property's own cap is 4^8)"],
+    harnesses=[
+        oracle("oracle_res_equiv"), oracle("oracle_valid_equiv"),
+        H("c05_decode_total", "c05", [Q, T], "∀ u64: deserialize never panics; Ok ⇒ valid cell that re-encodes canonically", functions=SER, bounds="none", exhaustive=True, deps=["oracle_valid_equiv"]),
+        H("c14_parent", "c14", [Q, T], "∀ u64 × ∀ Option<i32>: cell_to_parent never panics; Ok(y) ⇒ y canonical of the requested resolution; Err only for a non-cell or target ∉ −1..res",
+          functions=HIER[:-1], bounds="none", exhaustive=True, deps=["oracle_valid_equiv"]),
+        H("c14_children_args", "c14", [Q, T], "∀ u64 × ∀ Option<i32> with target ≤ res or target > 29: never panics; Ok ⇒ one canonical ID; Err only when honest",
+          functions=HIER, bounds="classes with fan-out ≤ 4 (loops 1×1×4)", unwindset=ch_unwind(1, 1, 4), deps=["oracle_valid_equiv"], mem_gb=16, timeout=1500),
+        H("c14_children_d1", "c14", [Q, T], "∀ u64 with res 1..28 (canonical or alias), target None/Some(res+1): Err (non-cell) or 4 canonical children",
+          functions=HIER, bounds="fan-out 4", unwindset=ch_unwind(1, 1, 4), deps=["oracle_valid_equiv"], mem_gb=24, timeout=1500),
+        H("c14_children_world_alias", "c14", [Q, T], "∀ world-cell aliases (no marker bit): children None/Some(0) = 12 canonical base cells; parent(−1) = world",
+          functions=HIER, bounds="fan-out 12", unwindset=ch_unwind(12, 1, 1), deps=["oracle_valid_equiv"], mem_gb=16, timeout=1500),
+        H("c14_counts", "c14", [Q, T], "∀ i32 (×3): get_num_cells, cell_area, get_num_children never panic; in-range values follow the hierarchy",
+          functions=["a5::core::cell_info::get_num_cells", "a5::core::cell_info::cell_area", "a5::core::cell_info::get_num_children"], bounds="none", exhaustive=True),
+        H("c14_uncompact_args", "c14", [Q, T], "∀ u64 × ∀ i32 target with target ≤ res or target > 29: uncompact never panics; Err ⇔ target<res or target ∉ −1..29",
+          functions=["a5::core::compact::uncompact"] + HIER, bounds="one input cell; fan-out ≤ 4", unwindset=ch_unwind(1, 1, 4), mem_gb=24, timeout=1500),
+        H("c14_uncompact_d1", "c14", [T], "∀ u64 with res 1..28, target res+1: Err (non-cell) or 4 canonical cells of the target resolution",
+          functions=["a5::core::compact::uncompact"] + HIER, bounds="one input cell; fan-out 4", unwindset=ch_unwind(1, 1, 4), mem_gb=45, timeout=3600),
+        H("c14_compact_any4", "c14", [T], "∀ 4 arbitrary u64 (strictly increasing): compact terminates, no overflow/OOB; Err only if some input is a non-cell",
+          functions=["a5::core::compact::compact"] + ORD, bounds="N=4; passes ≤ 3", mem_gb=30, timeout=3600, kani_args=[]),
+        H("c14_compact_lowres5", "c14", [Q, T], "∀ 5 arbitrary u64 of apparent resolution ≤ 1 (strictly increasing): compact has no overflow in cell + j·stride, terminates",
+          functions=["a5::core::compact::compact"] + ORD, bounds="N=5, apparent resolution ≤ 1", mem_gb=30, timeout=2400),
+        H("c14_lookup_hit", "c14", [Q, T], "∀ finite lon/lat × ∀ i32 r (first probe hits): Ok(id) ⇒ res(id)=r∈−1..29, canonical; Err ⇔ r∉−1..29",
+          functions=LK, bounds="search loop returns on its first probe (containment stub)", mem_gb=16, timeout=1800),
+    ] + [
+        H(n, "c14", [Q, T], f"lonlat_to_cell(∀ finite point, r={r}): Ok(id) ⇒ res(id)=r, canonical; Err ⇔ r∉−1..29", functions=LK,
+          bounds="r concrete; estimate stubbed", mem_gb=12, timeout=1200)
+        for n, r in [("c14_lookup_r_min", "i32::MIN"), ("c14_lookup_r_m2", -2), ("c14_lookup_r_m1", -1), ("c14_lookup_r_0", 0),
+                     ("c14_lookup_r_1", 1), ("c14_lookup_r_30", 30), ("c14_lookup_r_max", "i32::MAX")]
+    ],
+)
+MANIFEST_TEXT["C14"] = dict(
+    level="bounded model checking in overflow-checked semantics: one SAT query per exported function over all 2^64 IDs × all i32/Option<i32> resolutions; CBMC discharges every arithmetic/shift overflow, index, unwrap and panic site reachable from the call; counterexamples are replayed natively in dev and release profiles",
+    design_ref="DESIGN.md §5 C14",
+    note="trusted: Kani/CBMC/CaDiCaL; float leaves of lonlat_to_cell stubbed (named in evidence) — only argument handling and the integer codec are claimed; fan-out per call ≤ 16; compact inputs strictly increasing (std sort/HashSet trusted)",
+    technique="Kani/CBMC bounded model checking (SAT) with overflow/bounds/panic checks on the real exported functions over full-width symbolic arguments",
+)
+
+# ------------------------------------------------------------------------------------------ C17
+HIL = ["a5::core::hilbert::s_to_anchor", "a5::core::hilbert::s_to_anchor_internal", "a5::core::hilbert::shift_digits", "a5::core::hilbert::ij_to_s",
+       "a5::core::hilbert::ij_to_s_internal", "a5::core::hilbert::ij_to_quaternary", "a5::core::hilbert::quaternary_to_kj", "a5::core::hilbert::quaternary_to_flips"]
+OR6 = ["uv", "vu", "uw", "wu", "vw", "wv"]
+
+
+def c17h(n, tiers, timeout=1200, mem=8):
+    return H(f"c17_n{n}", "c17", tiers, f"∀ s<4^{n}, 6 orientations, δ∈[−2^-16,2^-16]²: centre(s)=offset+CENT[flips][k]+δ is inside the quintant triangle and ij_to_s(centre)=s",
+             functions=HIL, bounds=f"curve depth n={n} ({4**n} positions × 6 orientations, all in one query)", cfgs=["verif_c17"], timeout=timeout, mem_gb=mem,
+             assumes=["centroid table regenerated from the real tiling code this run (native), validated natively against the real centre path for all s<4^8"])
+
+
+def c17one(n, o, tiers, timeout=3000):
+    return H(f"c17_n{n}_{o}", "c17", tiers, f"as c17_n*, depth {n}, orientation {o}", functions=HIL, bounds=f"n={n} ({4**n} positions), orientation {o}", cfgs=["verif_c17"],
+             timeout=timeout, mem_gb=8, family=f"c17_n{n}")
+
+
+PROPERTIES["C17"] = dict(
+    explanation="ij_to_s is a left inverse of position ↦ cell centre on all 4^n positions (⇒ pentagons pairwise distinct, none reachable twice, locating a centre returns its position); centres inside the quintant triangle",
+    assumptions=["cell centre = anchor.offset + centroid table entry (table regenerated from get_pentagon_vertices/face_to_ij each run; cut validated natively)", "δ-box ±2^-16 absorbs the rounding difference between the two centre computations (measured ≤ 2e-13)"],
+    trusted_base=["native table generator /verif/native (links /repo)", "CBMC's IEEE-754 encoding of + − × on doubles"],
+    outside_claim=["curve depth n > 8 (the property goes to 29); no induction over depth", "pentagon placement constants (trig at start-up) enter only through the regenerated table"],
+    native_prepare=[dict(name="c17table", args=["c17table"], violation_on_fail=True)],
+    harnesses=[
+        c17h(1, [Q, T]), c17h(2, [Q, T]), c17h(3, [Q, T]), c17h(4, [Q, T]), c17h(5, [T]), c17h(6, [T], 2400),
+    ] + [c17one(7, o, [T]) for o in OR6] + [c17one(8, o, [T], 3600) for o in OR6] + [
+        H("c17_anchor_depth28", "c17", [T], "∀ s<4^28, 6 orientations: s_to_anchor has no overflow (1<<n, (1<<2n)−s−1), k<4, integer lattice offset",
+          functions=HIL[:3], bounds="n=28", cfgs=["verif_c17"], timeout=3600, mem_gb=16),
+    ],
+)
+MANIFEST_TEXT["C17"] = dict(
+    level="bounded model checking of the real Hilbert digit walk (exact small-integer arithmetic carried in f64, bit-precisely encoded): one SAT query per depth covers all 4^n positions × orientations × a δ-box of centre perturbations",
+    design_ref="DESIGN.md §5 C17",
+    note="trusted: Kani/CBMC/CaDiCaL incl. IEEE-754 encoding; centroid table regenerated natively from the real tiling code on every run and validated against the real centre computation on all s<4^8; depth ≤ 8 (quick ≤ 4)",
+    technique="Kani/CBMC bounded model checking (SAT, bit-precise floats) of the real s_to_anchor/ij_to_s over all positions of depth ≤ n",
+)
+
+# ------------------------------------------------------------------------------------------ C04 (partial)
+PROPERTIES["C04"] = dict(
+    explanation="PARTIAL: only the metadata sentence — cell_area(r)·N(r) = authalic Earth area within 1e-9 relative for all r∈0..29, get_num_cells follows 12, 60·4^(r−1). The polygon-area sentence (areas of actual cell boundaries) is outside this technique's reach (projection trig).",
+    assumptions=[],
+    trusted_base=["CBMC's IEEE-754 encoding of one multiply/divide per case"],
+    outside_claim=["first sentence of C04: area of each cell measured from its reported boundary (spherical polygon area through the projection: sin/cos/atan2 on symbolic doubles — not encodable; see DESIGN §6)"],
+    harnesses=[
+        H("c04_table", "c04", [Q, T], "∀ r∈0..29: |cell_area(r)·N(r) − cell_area(−1)| ≤ 1e-9·cell_area(−1); get_num_cells(r)=N(r) (r≤27; ≤1e-15 rel. at 28,29); area ratio of consecutive levels = 4",
+          functions=["a5::core::cell_info::cell_area", "a5::core::cell_info::get_num_cells"], bounds="none: all 30 levels symbolic", exhaustive=True),
+        H("c04_table_low", "c04", [Q, T], "∀ r<0: cell_area(r) = authalic Earth area, get_num_cells(r)=0", functions=["a5::core::cell_info::cell_area", "a5::core::cell_info::get_num_cells"], bounds="none", exhaustive=True),
+    ],
+)
+MANIFEST_TEXT["C04"] = dict(
+    level="PARTIAL claim — metadata sentence only: SAT query over all resolutions of the real cell_area/get_num_cells tables; the per-cell polygon area sentence is not claimed (not encodable: projection trig)",
+    design_ref="DESIGN.md §5b C04, §6",
+    note="only the second sentence of C04 is decided; the first (area of actual cell polygons) is outside the claim and listed in evidence.outside_claim",
+    technique="Kani/CBMC bounded model checking (SAT, bit-precise floats) of the real metadata tables",
+)
+
+# ------------------------------------------------------------------------------------------ C18 (partial)
+PROPERTIES["C18"] = dict(
+    explanation="PARTIAL: quintant↔segment relabelling bijection (all 60), face frame from the quaternion table (all face pairs: antipodes, 63.435° neighbours, north pole), stored axis angles vs documented frame, 93° longitude offset for all longitudes. Nearest-face selection is outside this technique's reach (haversine = sin).",
+    assumptions=[],
+    trusted_base=["frozen first_quintant table", "CBMC's IEEE-754 encoding"],
+    outside_claim=["'the face chosen is the nearest by great-circle distance' (haversine is sin of symbolic doubles)", "consistency of origin.axis with the quaternions through to_cartesian (sin/cos)"],
+    harnesses=[
+        H("c18_relabel", "c18", [Q, T], "∀ face<12, q<5: segment_to_quintant∘quintant_to_segment = id (and the converse), orientation preserved, both maps are permutations of 0..4; first_quintant = frozen table",
+          functions=["a5::core::origin::quintant_to_segment", "a5::core::origin::segment_to_quintant", "a5::core::origin::get_origins"], bounds="none: all 60 (face, quintant) pairs × second quintant", exhaustive=True),
+        H("c18_frame", "c18", [Q, T], "∀ face pairs i,j: centre_i·centre_j ∈ {1,−1,±1/√5} (1e-12), =1 iff i=j, exactly one antipode and five 63.435° neighbours per face, face 0 = north pole, unit quaternions, inverse = conjugate",
+          functions=["a5::core::origin::get_origins (generate_origins)", "a5::core::dodecahedron_quaternions::QUATERNIONS"], bounds="none: all 144 pairs", exhaustive=True, timeout=1200),
+        H("c18_axis_table", "c18", [Q, T], "∀ face: stored axis (θ,φ) = documented frame (pole; 72°-spaced ring at 63.435°; ring offset 36° at 116.565°; south pole) in curve order",
+          functions=["a5::core::origin::get_origins (generate_origins)"], bounds="none", exhaustive=True),
+        H("c18_offset", "c18", [Q, T], "∀ finite lon: from_lon_lat(lon,·).theta = (lon+93)·π/180 bit-exactly", functions=["a5::core::coordinate_transforms::from_lon_lat (longitude leg)"],
+          bounds="none: all finite doubles", exhaustive=True, assumes=["AuthalicProjection::forward stubbed nondeterministically (sin/cos series; does not influence theta)"]),
+    ],
+)
+MANIFEST_TEXT["C18"] = dict(
+    level="PARTIAL claim — frame geometry from the constant quaternion table, relabelling bijection and longitude offset are each one SAT query over all faces / pairs / doubles; nearest-face selection is not claimed (not encodable: haversine trig)",
+    design_ref="DESIGN.md §5b C18, §6",
+    note="the sentence 'the face chosen is the nearest by great-circle distance' is outside the claim and listed in evidence.outside_claim",
+    technique="Kani/CBMC bounded model checking (SAT, bit-precise floats) of the real origin tables and relabelling functions",
+)
+
+# ------------------------------------------------------------------------------------------ C06 (partial)
+def c06a(n, tiers, timeout=1500, mem=8):
+    return H(f"c06_anchor_n{n}", "c06", tiers, f"∀ s<4^{n}, 6 orientations: s_to_anchor = reference's Anchor (k, offset bits, flips)", functions=HIL[:3] + ["a5_ref (frozen v0.6.2) same functions"],
+             bounds=f"curve depth n={n}", timeout=timeout, mem_gb=mem)
+
+
+PROPERTIES["C06"] = dict(
+    explanation="PARTIAL: the labelling chain ID ↔ (face, quintant, orientation, anchor) ↔ lattice position is proved equal to a frozen copy of the reference release v0.6.2 for all inputs within bounds (differential harnesses, both sides symbolically executed). Projection/authalic/containment legs are outside this technique's reach.",
+    assumptions=[FMT_STUB],
+    trusted_base=["/verif/reference/a5-0.6.2 (frozen copy of the pinned release, crate renamed a5_ref)"],
+    outside_claim=["projection, authalic and containment legs (float trig; DESIGN §6)", "start-up pentagon/basis constants are compared natively with 1e-12 relative tolerance as a table pin (native_steps.c06pins), not a solver obligation",
+                   "anchors at curve depth > 12"],
+    native_prepare=[dict(name="c06pins", args=["c06pins"], violation_on_fail=True)],
+    harnesses=[
+        H("c06_decode", "c06", [Q, T], "∀ u64: deserialize/get_resolution ≡ reference (Ok/Err and every field)", functions=SER + ["a5_ref::core::serialization::*"], bounds="none", exhaustive=True),
+        H("c06_encode", "c06", [Q, T], "∀ valid cell(−1..29): serialize = reference's u64", functions=SER + ["a5_ref::core::serialization::*"], bounds="none", exhaustive=True, assumes=[VALID]),
+        H("c06_relabel", "c06", [Q, T], "∀ face<12, k<5: both relabelling maps = reference's (index, orientation); face tables bit-equal", functions=["a5::core::origin::*", "a5_ref::core::origin::*"], bounds="none", exhaustive=True),
+        H("c06_tables", "c06", [Q, T], "∀ r∈−1..30: get_num_cells, cell_area bit-equal to reference; QUATERNIONS bit-equal", functions=["a5::core::cell_info::*", "a5_ref::core::cell_info::*"], bounds="r ∈ −1..30", exhaustive=True),
+        H("c06_lon_offset", "c06", [Q, T], "∀ finite lon: longitude leg of from_lon_lat bit-equal to reference", functions=["a5::core::coordinate_transforms::from_lon_lat"], bounds="none", exhaustive=True),
+        c06a(2, [Q, T]), c06a(4, [Q, T]), c06a(6, [Q, T]), c06a(8, [T], 3000), c06a(10, [T], 3600, 12), c06a(12, [T], 3600, 16),
+    ],
+)
+MANIFEST_TEXT["C06"] = dict(
+    level="PARTIAL claim — translation-validation-style differential model checking: the current tree and a frozen copy of v0.6.2 are both compiled by Kani and their outputs compared bitwise under one SAT query per function over all inputs within bounds; only the integer labelling chain is claimed",
+    design_ref="DESIGN.md §5b C06, §6",
+    note="a violation means the label of some lattice position / ID changed (never a false alarm); the converse needs the float legs and is not claimed",
+    technique="Kani/CBMC differential bounded model checking (SAT) of current vs frozen-reference codec, relabelling and Hilbert anchors",
+)
+for k in ("C04", "C06", "C18"):
+    NOT_APPLICABLE.pop(k, None)
+
+PROPERTIES["EXP"] = dict(harnesses=[
+    H("exp_d1_min", "exp", [Q], "exp", unwindset=ch_unwind(1, 1, 4), mem_gb=24, timeout=1500),
+    H("exp_d1_min_stub", "exp", [Q], "exp", unwindset=ch_unwind(1, 1, 4), mem_gb=24, timeout=1500),
+])
+
+# ------------------------------------------------------------------------------------------ C08 / C09 / C10
+CMP = ["a5::core::compact::compact (whole body incl. both prelude statements and the fixed-point loop)", "a5::core::serialization::is_first_child",
+       "a5::core::serialization::get_stride", "a5::core::serialization::cell_to_parent", "a5::core::serialization::deserialize", "a5::core::serialization::serialize"]
+SORTED = "input: strictly increasing N-tuple of canonical cell IDs (every state the pass loop can be entered in); ancestor/descendant overlaps allowed"
+CDEPS = ["oracle_res_equiv", "oracle_valid_equiv", "oracle_covers_equiv"]
+
+
+def c08c(n, tiers, timeout, mem, est):
+    return H(f"c08_cover_{n}", "c08", tiers, f"∀ strictly increasing {n}-tuple of valid cells (any resolutions 0..29, overlaps allowed), ∀ valid resolution-29 cell y: (∃ input covers y) = (∃ output covers y); output valid, pairwise distinct, len ≤ {n}",
+             functions=CMP, bounds=f"N={n} cells; passes ≤ 13 (unwinding assertions on)", assumes=[SORTED] + COMPACT_STUBS, deps=CDEPS, timeout=timeout, mem_gb=mem, mem_est=est)
+
+
+PROPERTIES["C08"] = dict(
+    explanation="coverage preservation of the real compact for every strictly increasing N-tuple of valid cells with the witness cell universally quantified by the solver; merge of a complete group; order/multiplicity for N=2 with the real de-dup and a contract-equivalent sort; detector for a dropped sort",
+    assumptions=[SORTED, FMT_STUB] + COMPACT_STUBS,
+    trusted_base=["std HashSet is a set and sort_unstable sorts (order/multiplicity beyond N=2 rests on them)", "bit-level oracles proved equal to the real code in the same run"],
+    outside_claim=["N above the bound (quick 3, thorough 5)", "order/multiplicity independence beyond N=2 (std trusted)", "cascades deeper than the pass bound"],
+    harnesses=[oracle("oracle_res_equiv"), oracle("oracle_valid_equiv"), oracle("oracle_covers_equiv"),
+               c08c(2, [Q, T], 1200, 12, 4), c08c(3, [Q, T], 2400, 24, 12), c08c(4, [T], 5400, 40, 16), c08c(5, [T], 7200, 45, 20),
+               H("c08_group4_merges", "c08", [Q, T], "∀ valid parent p (r 1..28): compact(its 4 children) = [p]", functions=CMP, bounds="N=4 built from one symbolic parent", assumes=COMPACT_STUBS, timeout=2400, mem_gb=24, mem_est=10),
+               H("c08_prelude_2", "c08", [Q, T], "∀ two arbitrary valid cells (unsorted, possibly equal): compact([a,b]) = compact([b,a]) = compact([a,a,b]), sorted, deduplicated",
+                 functions=CMP, bounds="N=2 (3 with the duplicate)", assumes=["real set membership test (ASSUME_UNIQUE off)", "sort_unstable ↦ bounded insertion sort with the same contract", COMPACT_STUBS[2]], timeout=2400, mem_gb=24, mem_est=10),
+               H("c08_unsorted_4", "c08", [T], "input strictly decreasing, sort stub = reverse: coverage preserved and 4 siblings still merge (detects a dropped/misplaced sort)", functions=CMP, bounds="N=4",
+                 assumes=["sort_unstable ↦ reverse (a correct sort for strictly decreasing input)"] + COMPACT_STUBS[1:], timeout=5400, mem_gb=40, mem_est=16),
+               ],
+)
+MANIFEST_TEXT["C08"] = dict(
+    level="bounded model checking of the real compact (whole function body) on every strictly increasing N-tuple of valid cells, with the witness cell at the finest level universally quantified — equality of expansions without expanding; N ≤ 3 quick, ≤ 5 thorough",
+    design_ref="DESIGN.md §2.3, §5 C08",
+    note="guard on (Vec-backed set model); sort stub = identity on sorted input; get_resolution replaced by a loop-free form proved equal on all 2^64 inputs in the same run; order/multiplicity beyond N=2 trusts std",
+    technique="Kani/CBMC bounded model checking (SAT) of the real compact over symbolic sorted cell tuples with a universally quantified witness cell",
+)
+
+UNC = ["a5::core::compact::uncompact", "a5::core::cell_info::get_num_children", "a5::core::serialization::cell_to_children", "a5::core::serialization::get_resolution"]
+PROPERTIES["C09"] = dict(
+    explanation="uncompact = per-input cell_to_children in input order, right length, Err (nothing returned) iff some input is finer than the target; descendant-set facts then follow from C07's children harnesses",
+    assumptions=[VALID, FMT_STUB],
+    trusted_base=[],
+    outside_claim=["lists longer than 2", "fan-out > 12 per input", "d ≥ 2 levels in one call (follows by C07 composition, not executed)"],
+    harnesses=[
+        H("c09_single_flat", "c09", [Q, T], "∀ valid cell(−1..29) c, ∀ t∈−1..res c: uncompact([c],t) = [c] iff t=res c, else Err", functions=UNC, bounds="one input; fan-out 1", exhaustive=True, assumes=[VALID]),
+        H("c09_pair_flat", "c09", [Q, T], "∀ valid a,b, ∀ t ≤ min res: Ok([a,b]) in input order iff t=res a=res b; Err iff either is finer", functions=UNC, bounds="two inputs; fan-out 1", assumes=[VALID]),
+        H("c07_fanout", "c07", [Q, T], "pre-count formula: get_num_children = ∏ apertures", functions=["a5::core::cell_info::get_num_children"], bounds="c−p ≤ 8"),
+        H("c09_world_base", "c09", [Q, T], "uncompact([world],0) = 12 base cells in face order; ∀ face: uncompact([base],1) = its 5 distinct quintants", functions=UNC,
+          bounds="fan-out 12 / 5", unwindset=ch_unwind(12, 5, 1), timeout=2400, mem_gb=30, mem_est=14, assumes=["get_resolution ↦ res_stub"], deps=["oracle_res_equiv", "oracle_valid_equiv"]),
+        H("c09_single_d1", "c09", [T], "∀ valid cell(1..28): uncompact([c],r+1) = cell_to_children(c,r+1) element-wise, 4 = get_num_children, each child of c; uncompact([c],r−1) Err",
+          functions=UNC, bounds="one input; fan-out 4", unwindset=ch_unwind(1, 1, 4), timeout=5400, mem_gb=45, mem_est=28, assumes=[VALID, "get_resolution ↦ res_stub"], deps=["oracle_res_equiv"]),
+        H("c09_pair_d1", "c09", [T], "a at r then b at r+1 (both orders), target r+1: 5 outputs concatenated in input order", functions=UNC, bounds="two inputs; fan-out 4+1",
+          unwindset=ch_unwind(1, 1, 4), timeout=5400, mem_gb=45, mem_est=28, assumes=[VALID, "get_resolution ↦ res_stub"], deps=["oracle_res_equiv"]),
+    ],
+)
+MANIFEST_TEXT["C09"] = dict(
+    level="bounded model checking of the real uncompact over all valid cells × targets with fan-out ≤ 12 per input and lists ≤ 2: equality with cell_to_children element-wise, input order, error iff an input is finer",
+    design_ref="DESIGN.md §5 C09",
+    note="symbolic-size Vec allocation makes the one-level expansion a 20+ GB query (thorough tier, run alone); quick tier covers the fan-out-1, error and world/base classes and the pre-count formula",
+    technique="Kani/CBMC bounded model checking (SAT) of the real uncompact against the real cell_to_children on symbolic cells",
+)
+
+PROPERTIES["C10"] = dict(
+    explanation="maximality (no complete sibling group survives, through a universally quantified parent), idempotence and sortedness of the result, invariance under one split move (inductive step for canonicity) on non-overlapping strictly increasing inputs",
+    assumptions=[SORTED + "; pairwise non-overlapping", FMT_STUB] + COMPACT_STUBS,
+    trusted_base=["bit-level oracles (res_stub, spec_valid, spec_covers, spec_child) proved equal to the real code in the same run"],
+    outside_claim=["N above the bound (4–5)", "sets containing cells of resolution < 2 together with a complete low-resolution sibling group need N ≥ 6: outside the solver bound — the known r ≤ 1 defect is carried by native witness replay (known_findings.json)"],
+    harnesses=[oracle("oracle_res_equiv"), oracle("oracle_valid_equiv"), oracle("oracle_covers_equiv"), 
+               H("oracle_child_equiv", "oracles", [Q, T], "∀ valid cell(1..28), k<4: spec_child(id,k) = serialize(child k)", functions=SER, bounds="none", exhaustive=True),
+               H("c10_max_4", "c10", [Q, T], "∀ non-overlapping strictly increasing 4-tuple, ∀ valid parent p: output never contains all children of p", functions=CMP, bounds="N=4", assumes=COMPACT_STUBS, deps=CDEPS, timeout=5400, mem_gb=40, mem_est=16),
+               H("c10_max_5_hi", "c10", [T], "same, N=5, resolutions ≥ 2", functions=CMP, bounds="N=5, r≥2", assumes=COMPACT_STUBS, deps=CDEPS, timeout=7200, mem_gb=45, mem_est=24),
+               H("c10_max_5", "c10", [T], "same, N=5, all resolutions 0..29 (includes 5 quintants of one face)", functions=CMP, bounds="N=5", assumes=COMPACT_STUBS, deps=CDEPS, timeout=7200, mem_gb=45, mem_est=24),
+               H("c10_idem_4_hi", "c10", [T], "∀ non-overlapping 4-tuple at r≥2: result sorted; compact(compact(x)) = compact(x) as vectors", functions=CMP, bounds="N=4, r≥2", assumes=COMPACT_STUBS, timeout=7200, mem_gb=45, mem_est=24),
+               H("c10_idem_4", "c10", [T], "same, all resolutions", functions=CMP, bounds="N=4", assumes=COMPACT_STUBS, timeout=7200, mem_gb=45, mem_est=24),
+               H("c10_split_1", "c10", [Q, T], "∀ valid x (r 1..28): compact(children of x) = compact([x])", functions=CMP, bounds="1 → 4 cells", assumes=COMPACT_STUBS, deps=["oracle_child_equiv"], timeout=3600, mem_gb=30, mem_est=12),
+               H("c10_split_2", "c10", [T], "∀ non-overlapping pair, ∀ i: replacing x[i] by its 4 children gives the same compacted vector", functions=CMP, bounds="2 → 5 cells", assumes=COMPACT_STUBS, deps=["oracle_child_equiv"], timeout=7200, mem_gb=45, mem_est=24),
+               ],
+)
+MANIFEST_TEXT["C10"] = dict(
+    level="bounded model checking of the real compact on every non-overlapping strictly increasing N-tuple (N ≤ 4–5): maximality via a universally quantified parent, idempotence, and invariance under one split move",
+    design_ref="DESIGN.md §5 C08/C10",
+    note="N ≤ 5; the low-resolution (r ≤ 1) interleaving defect needs N = 6 which does not close in memory — it is a known finding established by native witness replay, listed in known_findings.json",
+    technique="Kani/CBMC bounded model checking (SAT) of the real compact over symbolic non-overlapping sorted cell tuples",
+)
